@@ -484,6 +484,23 @@ Definition backoff (name : string) (sleep : val) (mx : option Q) (jrc r : Q) (ba
   else if String.eqb name "exponentialjitter" then jitter expo
   else None.
 
+(** [backoff_cache.get_backoff(name)(sleep=, max_sleep=, jrc=, kwargs=)]: the back-off callable
+    ([r]: what random.random() returns); [None] = a construction outside the model *)
+Definition backoff_base (args : val) : Q :=
+  match args with
+  | VDict d => match sget "base" d with
+               | Some b => match q_of b with Ok q => q | _ => 2%Q end
+               | None => 2%Q
+               end
+  | _ => 2%Q
+  end.
+Definition mk_interval (r : Q) (bname sleep : val) (mx : option Q) (jrcv args : val)
+  : option (nat -> option Q) :=
+  match bname, q_of jrcv with
+  | VStr bn, Ok jrc => Some (backoff bn sleep mx jrc r (backoff_base args))
+  | _, _ => None
+  end.
+
 (** * [utils.poll.while_until_true] *)
 Inductive iter_result := IDone (b : bool) | IRaise (o : outcome).
 
@@ -715,29 +732,22 @@ Section Engine.
           else Ok None) s0 (fun mx =>
     lift (fmt s0 (r_jrc rc)) s0 (fun jrcv =>
     lift (match r_args rc with Some a => fmt s0 a | None => Ok VNone end) s0 (fun args =>
-    lift (if opt_truth (r_max rc)
-          then match r_max rc with
-               | Some m => let* z := as_int s0 m in Ok (Some z)
-               | None => Ok None
-               end
-          else Ok None) s0 (fun max =>
-    match bname, q_of jrcv with
-    | VStr bn, Ok jrc =>
-        let base := match args with
-                    | VDict d => match sget "base" d with
-                                 | Some b => match q_of b with Ok q => q | _ => 2%Q end
-                                 | None => 2%Q
-                                 end
-                    | _ => 2%Q
-                    end in
-        let interval := backoff bn sleep mx jrc (jit s0) base in
+    (* the back-off callable is built before [max] is read *)
+    match mk_interval (jit s0) bname sleep mx jrcv args with
+    | None => (OUnsup, s0)
+    | Some interval =>
+        lift (if opt_truth (r_max rc)
+              then match r_max rc with
+                   | Some m => let* z := as_int s0 m in Ok (Some z)
+                   | None => Ok None
+                   end
+              else Ok None) s0 (fun max =>
         match poll LOOPFUEL (retry_iter rc sp k max) interval max 0 s0 with
         | (IDone true, s1) => (OOk, s1)
         | (IDone false, s1) => raise_new "AssertionError" "" s1
         | (IRaise o, s1) => (o, s1)
-        end
-    | _, _ => (OUnsup, s0)
-    end)))))).
+        end)
+    end))))).
 
   (** ** [Step.run_conditional_decorators] *)
   Definition cond (sp : step) (k : counters) (s : st) : R :=
